@@ -500,7 +500,19 @@ def rule_i(ctx):
     ctx.floor(R, 1)
 
 
+def _corner_rules(ctx):
+    from . import c01, c20
+
+    T_i, _, _ = c20.extract_tables(ctx)
+    ctx.rule("C01.b", "Image.opposite_corner folded per dimension against the axis table (see C01.b)")
+    c01._opposite_corner(ctx, "C01.b", ctx.model, T_i)
+    c01.rule_f(ctx)
+
+
 def run(ctx):
+    from .common import shared as _shared
+
+    _shared(ctx, "C11.f", _corner_rules, why="the superposition canvas is spanned by origin and opposite_corner of every input image, and each image is placed by them")
     rule_i(ctx)
     rule_h(ctx)
     rule_g(ctx)
